@@ -351,6 +351,17 @@ func (f *Func) reachTarget(
 				skip = true
 				argMap[graph.VertexID(out)] = v.Value
 			}
+
+		case *valueVertex:
+			// A named value that already holds a value is an exact match
+			// (a direct input or a value we already produced), use it as-is
+			// rather than searching for a path that might convert to it.
+			// When redefining we always plan the path so that we learn
+			// which inputs it depends on.
+			if !redefine && v.Value.IsValid() {
+				skip = true
+				argMap[graph.VertexID(out)] = v.Value
+			}
 		}
 
 		// If we're skipping because we have this value already, there is
